@@ -360,6 +360,18 @@ func initTopicP2P(t *Topic, sreg *ClientComMessage) error {
 			// Sanity check
 			sub2.ModeGiven = sub2.ModeGiven&types.ModeCP2P | types.ModeApprove
 
+			if pktsub.Set == nil || pktsub.Set.Desc == nil || pktsub.Set.Desc.DefaultAcs == nil {
+				// If user2 was subscribed previously, use the previous modeGiven. Otherwise a restriction
+				// is lost as soon as the subscription is deleted and the topic is loaded again.
+				old, err := store.Subs.Get(t.name, userID2, true)
+				if err != nil {
+					return err
+				}
+				if old != nil {
+					sub2.ModeGiven = old.ModeGiven&types.ModeCP2P | types.ModeApprove
+				}
+			}
+
 			// Swap Public+Trusted to match swapped Public+Trusted in subs returned from store.Topics.GetSubs
 			sub2.SetPublic(users[u1].Public)
 			sub2.SetTrusted(users[u1].Trusted)
@@ -379,6 +391,16 @@ func initTopicP2P(t *Topic, sreg *ClientComMessage) error {
 				types.ModeCP2P)
 			// Sanity check: user2's default access may contain bits which make no sense in a P2P topic.
 			userData.modeGiven = userData.modeGiven&types.ModeCP2P | types.ModeApprove
+
+			// If user1 was subscribed previously, use the previous modeGiven. Otherwise the user may delete
+			// the subscription and resubscribe to avoid being blocked.
+			old, err := store.Subs.Get(t.name, userID1, true)
+			if err != nil {
+				return err
+			}
+			if old != nil {
+				userData.modeGiven = old.ModeGiven&types.ModeCP2P | types.ModeApprove
+			}
 
 			// By default assign the same mode that user1 gave to user2 (could be changed below)
 			userData.modeWant = sub2.ModeGiven
